@@ -115,6 +115,23 @@ impl<T: Copy + Default> Im2Col<'_, T> {
         rows: Range<usize>,
         cols: Range<usize>,
     ) {
+        self.pack_block_with_padding::<I, NR_REGS>(isa, out, panel_width, rows, cols, T::default())
+    }
+
+    /// Variant of [`pack_block`](Self::pack_block) which fills elements in the
+    /// padding region of the image with `pad_value` instead of zero.
+    ///
+    /// For quantized images `pad_value` should be the image's zero point.
+    #[inline(always)]
+    pub(super) fn pack_block_with_padding<I: Isa, const NR_REGS: usize>(
+        &self,
+        isa: I,
+        out: &mut [MaybeUninit<T>],
+        panel_width: usize,
+        rows: Range<usize>,
+        cols: Range<usize>,
+        pad_value: T,
+    ) {
         let ops = isa.i32();
         let mask_ops = isa.m32();
 
@@ -194,7 +211,7 @@ impl<T: Copy + Default> Im2Col<'_, T> {
                         let elem = if pad_mask_array[idx] {
                             src_elem
                         } else {
-                            T::default()
+                            pad_value
                         };
 
                         // Safety: `out_offset + i` is valid for `i < ops.len()`.
